@@ -270,6 +270,15 @@ def run_designer_case(case):
       for t in done:
         t.complete(vz.Measurement(metrics=objective(spec, plain_params(t.parameters))))
       d.update(vza.CompletedTrials(done), vza.ActiveTrials(pending))
+      if case.get('restore') and isinstance(d, (vza.PartiallySerializableDesigner, vza.SerializableDesigner)):
+        # what the service does between two suggest operations (PartiallySerializableDesignerPolicy):
+        # persist the state, build a NEW instance from (problem, seed), load the state into it
+        md = d.dump()
+        if isinstance(d, vza.PartiallySerializableDesigner):
+          d = designer_factory(case['designer'], case.get('opts'))(problem, seed=case['seed'])
+          d.load(md)
+        else:
+          d = type(d).recover(md)
     return {'suggestions': out}
   except Exception as e:  # pylint: disable=broad-except
     return {'error': '%s: %s' % (type(e).__name__, str(e)[:300])}
